@@ -238,6 +238,17 @@ impl<T: Type> Message<T> {
 //@with
     msgs::TxRemoveOutput::TYPE => { Ok(Message::TxRemoveInput(LengthReadable::read_from_fixed_length_buffer(buffer)?)) },
 //@end
+impl<T: Type> Message<T> {
+//@extract lightning/src/ln/wire.rs :: impl Message :: fn is_even
+//@ret r
+//@ensures P C13,C15 a-message-is-even-exactly-when-the-low-bit-of-its-type-is-clear
+    r == (self.spec_tid() & 1 == 0),
+//@mutant odd_types_reported_even
+    (self.type_id() & 1) == 0
+//@with
+    (self.type_id() & 1) == 1
+//@end
+}
 // wire::read: the two-byte type is read first; a message that then fails to decode is reported WITH the type that was announced (what the peer handler's
 // tolerance of undecodable gossip is decided on, u15h), a failure to read the type itself without one
 pub uninterp spec fn announced_type(b: Buf) -> u16;
